@@ -169,8 +169,8 @@ def run(W, chk):
         ("lp denom", [LP_BY_PM(XP)]),
         ("attached == declared", [PredTrue("one_coin == params.farm_asset", eq_test(r"^info\.funds\[\*\]$", XP + r"\.farm_asset$"))]),
         ("same reward denom", [PredTrue("farm denom == declared denom", eq_test(r"^Store\(FARMS\)\.farm_asset\.denom$", XP + r"\.farm_asset\.denom$"))]),
-        ("multiple of rate", [PredTrue("amount % rate == 0", lambda pn, pa: pn == "eq" and any("rem" in ops for (o, ops) in flat_atoms(pa[0])) and
-                                       origin_match(pa[0], r"emission_rate$|info\.funds\[\*\]\.amount$"))]),
+        ("multiple of rate", [PredTrue("amount % rate == 0", lambda pn, pa: pn in ("eq", "is_zero") and any("rem" in ops for (o, ops) in flat_atoms(pa[0])) and
+                                       origin_match(pa[0], r"emission_rate$|info\.funds\[\*\]\.amount$"))]),      # `x % rate == 0` / `(x % rate).is_zero()`
     ]
     for nm, cuts in eg:
         no_effects(chk, W, "CUT-expand-farm", fm, EXPAND, cuts, " [%s]" % nm, effects=farm_saves)
